@@ -445,7 +445,7 @@ func run(c *core.Ctx) {
 	}
 	c.Add("hook_invocations_observed", len(ff.log))
 	if len(ff.log) > 0 {
-		c.Shape("op", kind, len(ff.log), len(op.Records()))
+		c.Shape("op", kind, txm.LogShape(ff.log), len(op.Records()))
 	}
 	// SkipHooks session
 	rs := execute(op.Run, 0, true)
@@ -465,7 +465,7 @@ func run(c *core.Ctx) {
 				"hooks_fault_free": txm.LogString(ff.log), "hooks_this_run": txm.LogString(rf.log)})
 			continue
 		}
-		c.Shape("fail", kind, ff.log[j-1].Hook, ff.log[j-1].Type, j == 1, j == len(ff.log))
+		c.Shape("fail", kind, ff.log[j-1].Hook, ff.log[j-1].Type, j, len(ff.log))
 	}
 	restore()
 	if c.WantSample() && len(ff.log) > 5 {
